@@ -712,8 +712,29 @@ def qmeta_flow(repo, res):
         res.fail(key, "vertex rule is not registered under its own cell type with its points and weights", rep.line(g.node))
     key = f"{g.key}:custom-scheme"
     res.ob(key)
-    if not re.search(r"points = md\['quadrature_points'\]\n\s+weights = md\['quadrature_weights'\]\n\s+rules\[cell_type\] = \(points, weights, None\)", s):
-        res.fail(key, "custom rule does not use exactly the points and weights of the metadata", rep.line(g.node))
+    cb = None
+    for n in ast.walk(g.node):
+        if isinstance(n, ast.If) and ast.unparse(n.test).replace('"', "'") == "scheme == 'custom'":
+            cb = n
+    if cb is None:
+        raise AnalysisError("_group_integrands_by_quadrature_rule: `scheme == 'custom'` branch not found")
+    cstores = [a for st in cb.body for a in ast.walk(st) if isinstance(a, ast.Assign) and isinstance(a.targets[0], ast.Subscript)
+               and isinstance(a.targets[0].value, ast.Name) and a.targets[0].value.id == "rules"]
+    if len(cstores) != 1 or not isinstance(cstores[0].value, ast.Tuple) or len(cstores[0].value.elts) != 3:
+        res.fail(key, "the custom branch does not register exactly one (points, weights, tensor factors) rule", rep.line(cb))
+    else:
+        def origin(e):
+            # local definitions inside the custom branch only
+            if isinstance(e, ast.Name):
+                ds = [a.value for st in cb.body for a in ast.walk(st) if isinstance(a, ast.Assign) and any(isinstance(t, ast.Name) and t.id == e.id for t in a.targets)]
+                if len(ds) == 1:
+                    return origin(ds[0])
+            return ast.unparse(e).replace('"', "'")
+        p_, w_, tf_ = cstores[0].value.elts
+        if origin(p_) != "md['quadrature_points']" or origin(w_) != "md['quadrature_weights']":
+            res.fail(key, f"custom rule is built from points `{origin(p_)}` and weights `{origin(w_)}`, not from the metadata's quadrature_points / quadrature_weights", rep.line(cstores[0]))
+        if not (isinstance(tf_, ast.Constant) and tf_.value is None):
+            res.fail(key, "custom rule carries tensor factors", rep.line(cstores[0]))
     key = f"{g.key}:grouping"
     res.ob(key)
     gr = _find(s, r"(?P<rule>\w+) = QuadratureRule\((?P<p>\w+), (?P<w>\w+), (?P<tf>\w+)\)", "rule construction")
